@@ -46,6 +46,8 @@ var pureStd = map[string]bool{
 	"strings.Join": true, "strings.Repeat": true, "strings.ToUpper": true, "strings.Contains": true,
 	"fmt.Sprintf": true, "fmt.Sprint": true, "fmt.Errorf": true, "errors.Is": true, "errors.As": true,
 	"slices.Contains": true, "sort.SearchStrings": true,
+	// read-only searches of package slices (a callback sees the elements, not the slice)
+	"slices.ContainsFunc": true, "slices.Index": true, "slices.IndexFunc": true, "slices.Equal": true, "slices.BinarySearch": true,
 }
 
 type effFinding struct {
@@ -150,10 +152,22 @@ func (w *World) trackShared(v ssa.Value, isAddr bool, origin string, seen map[ss
 			}
 			for _, callee := range callees {
 				full := ""
-				if callee.Pkg != nil {
+				if o := callee.Origin(); o != nil && o.Pkg != nil {
+					full = o.Pkg.Pkg.Name() + "." + o.Name() // an instance of a generic function (slices.IndexFunc[[]string, string])
+				} else if callee.Pkg != nil {
 					full = callee.Pkg.Pkg.Name() + "." + callee.Name()
 				}
 				if pureStd[full] {
+					if strings.HasSuffix(full, "Func") {
+						// the callback is handed the elements: harmless only when they are plain values
+						plain := false
+						if sl, ok := v.Type().Underlying().(*types.Slice); ok {
+							_, plain = sl.Elem().Underlying().(*types.Basic)
+						}
+						if !plain {
+							*out = append(*out, effFinding{u, fmt.Sprintf("reference loaded from %s handed to %s, whose callback receives its reference-typed elements", origin, full), false})
+						}
+					}
 					continue
 				}
 				if callee.Blocks == nil || !corePkg(fnPkgPath(callee)) {
